@@ -71,8 +71,9 @@ MIN = {
     'cache_hit_steps': 2000, 'name_collision_exprs': 200,
     'input:duplicate-node': 100,
     'input:duplicate-node-with-offset-and-alias-qualifier': 5,
-    'input:or-with-message-ending-in-nonword-char': 20,
-    'input:or-with-message-that-prefixes-another': 10,
+    'input:or-with-message-ending-in-nonword-char': 50,
+    'input:or-with-atom-text-prefix-of-another': 50,
+    'input:or-with-same-output-at-points-n-and-minus-n': 5,
 }
 NCASES = {'quick': 480, 'thorough': 8000}
 
@@ -223,7 +224,7 @@ MSG_PLAIN = ('data ready', 'file written', 'step 2 done', 'x', 'out_1',
              'élan vital', 'a b c', 'ready', 'checkpoint 10')
 MSG_PUNCT_INSIDE = ('file.nc written', 'x=1 ok', 'a,b', '50% done ok',
                     "it's ok", '-1', 'WARNING: low disk', 'a/b c',
-                    'x [y] z', '!go now', '  padded')
+                    'x [y] z', '!go now')
 MSG_TRAILING_NONWORD = ('done!', 'the end.', '100%', 'ok?', 'a+',
                         'stage [2]', 'out x done, ok!', '!')
 # messages containing the graph operator characters themselves
@@ -335,29 +336,44 @@ def build_case(rng):
 def message_hazards(all_atoms, conditional):
     """Hazards of the concrete prerequisite, from its atoms
     (point text, task, message, is-custom-message).  Only an expression with
-    an OR is turned into text that is evaluated."""
-    if not conditional:
+    an OR (or with a '|' inside a message) is turned into text that is
+    evaluated.
+
+    Input classes that used to break the implementation and were repaired
+    there (message ending in a non-word character, one atom's text inside
+    another's, the same output at points n and -n) are still generated and
+    counted (see `input:` counters) but no longer name a finding.
+    """
+    custom = [m for _c, _t, m, is_custom in all_atoms if is_custom]
+    # a '|' inside a message makes even an AND-only expression "conditional"
+    if not conditional and not any('|' in m for m in custom):
         return []
     feats = []
-    custom = [m for _c, _t, m, is_custom in all_atoms if is_custom]
     if any(ch in m for m in custom for ch in '()|&'):
         feats.append('or-expression-message-contains-operator-character')
-    if any(m and not G._is_word(m[-1]) for m in custom):
-        feats.append('or-expression-message-ends-with-nonword-char')
     if any('"' in m or '\\' in m for m in custom):
         feats.append('or-expression-message-has-quote-or-backslash')
+    return feats
+
+
+def input_classes(all_atoms, conditional):
+    """Counted input classes of one prerequisite (coverage evidence)."""
+    if not conditional:
+        return []
+    out = []
+    custom = [m for _c, _t, m, is_custom in all_atoms if is_custom]
+    if any(m and not G._is_word(m[-1]) for m in custom):
+        out.append('or-with-message-ending-in-nonword-char')
     keys = sorted({(c, t, m) for c, t, m, _ in all_atoms})
     if any(c1 == '-' + c2 and (t1, m1) == (t2, m2)
            for c1, t1, m1 in keys for c2, t2, m2 in keys):
-        feats.append('or-expression-same-output-at-points-n-and-minus-n')
-    else:
-        # (a leading '-' of a pre-initial integer point is not part of the
-        # word-boundary question)
-        texts = sorted({f'{c.lstrip("-")}/{t} {m}' for c, t, m in keys})
-        if any(G.inside_at_word_boundaries(a, b)
-               for a in texts for b in texts):
-            feats.append('or-expression-atom-text-inside-another-atom-text')
-    return feats
+        out.append('or-with-same-output-at-points-n-and-minus-n')
+    texts = sorted({f'{c.lstrip("-")}/{t} {m}' for c, t, m in keys})
+    if any(G.inside_at_word_boundaries(a, b) for a in texts for b in texts):
+        out.append('or-with-atom-text-inside-another-atom-text')
+    if any(a != b and b.startswith(a) for a in texts for b in texts):
+        out.append('or-with-atom-text-prefix-of-another')
+    return out
 
 
 def make_key(symptom, graph_feats, msg_feats):
@@ -365,7 +381,8 @@ def make_key(symptom, graph_feats, msg_feats):
     if len(feats) == 1:
         return f'C13:{feats[0]}'
     if feats:
-        return 'C13:several-hazards:' + '+'.join(feats)
+        # cannot tell which one from the witness: one key, list in detail
+        return 'C13:several-hazards'
     return f'C13:{symptom}'
 
 
@@ -433,6 +450,8 @@ def run_unit(ctx, case, unit, rng):
              and rn.suicide == unit.suicide for nd in B.leaves(left)]
     graph_feats = G.hostile_features(nodes, {})
     msg_feats = message_hazards(unit.all_atoms, unit.conditional)
+    for cls in input_classes(unit.all_atoms, unit.conditional):
+        ctx.count('input:' + cls)
 
     def fail(symptom, what, **extra):
         ctx.violation(
@@ -442,7 +461,8 @@ def run_unit(ctx, case, unit, rng):
              'scheduling': pm.scheduling() + pm.scheduler(),
              'section': pm.section, 'task': unit.dep, 'point': ptext,
              'suicide': unit.suicide, 'expression': expr_text,
-             'facts': unit.facts, **extra})
+             'facts': unit.facts,
+             'hazards': sorted(set(graph_feats) | set(msg_feats)), **extra})
 
     try:
         point_obj = _real['get_point'](ptext).standardise()
@@ -611,15 +631,6 @@ def run_case(ctx, i, rng):
         ctx.count('offset_atoms', sum(1 for nd in nodes if nd.offset))
         for cls in G.duplicate_node_classes(nodes):
             ctx.count('input:' + cls)
-        for nd in nodes:
-            m = messages.get((nd.name, nd.qual))
-            if m is None or not B.has_or(sem):
-                continue
-            if not G._is_word(m[-1]):
-                ctx.count('input:or-with-message-ending-in-nonword-char')
-            if any(m2 != m and m2.startswith(m) for (t2, _o), m2 in
-                   messages.items() if t2 == nd.name):
-                ctx.count('input:or-with-message-that-prefixes-another')
         ks = [0, 1, rng.choice([2, 3, 4])]
         if ctx.tier == 'quick':
             ks = [0, rng.choice([1, 2, 3])]
